@@ -321,7 +321,7 @@ def replay_valid(p):
             v = R.rand_n_ball(p['d'], seed=seed)
             bad = np.linalg.norm(v) > 1 + TOL
         elif what == 'dm':
-            rho = R.rand_density_matrix(p['d'], k=p['k'], seed=seed)
+            rho = R.rand_density_matrix(p['d'], k=p['k'], kind=p.get('kind', 'haar'), seed=seed)
             ev = np.linalg.eigvalsh(rho)
             bad = np.abs(rho - rho.conj().T).max() > TOL or abs(np.trace(rho) - 1) > TOL or ev.min() < -TOL or np.sum(ev > 1e-9) > (p['k'] or p['d'])
         elif what == 'herm':
@@ -397,14 +397,34 @@ def run(chk):
             exc = paths[0].value if paths else None
             chk.engine_error(name, RuntimeError(f'no returning path ({type(exc).__name__}: {exc})'))
     # ---- validity of the algebraic generators for every draw
-    def valid(name, fn, claims_of, rp, pre_of=None):
+    def valid(name, fn, claims_of, rp, pre_of=None, eg_extra=None, havoc_first_matmul=False):
         chk.configurations += 1
+        eg_ = eg
+        if eg_extra:
+            eg_ = {k_: dict(v_) for k_, v_ in eg.items()}
+            for k_, v_ in eg_extra.items():
+                eg_.setdefault(k_, {}).update(v_)
         try:
             def once():
                 _FRESH[0] = 0
                 TOTAL[0] = 0
-                return fn(SymStream(f'v<{name}>'))
-            paths, st = H.run_paths(once, [], np_facade=fac, extra_globals=eg, feas_timeout_ms=500, max_paths=64)
+                if havoc_first_matmul:
+                    cnt = [0]
+
+                    def hook(r):
+                        cnt[0] += 1
+                        if cnt[0] > 1:
+                            return r
+                        out = np.empty(r.shape, dtype=object)
+                        for j, idx in enumerate(np.ndindex(*r.shape)):
+                            out[idx] = S.sc_var(f'havoc<{name}>[{j}]', True)
+                        return out
+                    A.MATMUL_HOOK[0] = hook
+                try:
+                    return fn(SymStream(f'v<{name}>'))
+                finally:
+                    A.MATMUL_HOOK[0] = None
+            paths, st = H.run_paths(once, [], np_facade=fac, extra_globals=eg_, feas_timeout_ms=500, max_paths=64)
         except S.EngineError as e:
             chk.engine_error(name, e)
             return
@@ -432,12 +452,29 @@ def run(chk):
     def dm_claims(rho):
         P = A.plain(rho)
         n = P.shape[0]
-        herm = ir.band_all(H.eq_sc(P[i, j], S.as_sc(P[j, i]).conjugate()) for i in range(n) for j in range(i, n))
         tr = sum((S.as_sc(P[i, i]) for i in range(n)), SC(ir.ZERO))
-        return [('Hermitian', herm), ('trace one', H.eq_sc(tr, 1))]
-    for d, k in ((2, None), (2, 1), (3, 2)):
-        valid(f'rand_density_matrix({d},k={k})', lambda s, d=d, k=k: R.rand_density_matrix(d, k=k, seed=s), dm_claims, ('c10v', {'what': 'dm', 'd': d, 'k': k}),
-              lambda v: [ir.band_all(cnd for k_, cnd in S.ctx().side)])
+        return [(f'Hermitian [{i},{j}]', H.eq_sc(P[i, j], S.as_sc(P[j, i]).conjugate())) for i in range(n) for j in range(i, n)] + [('trace one', H.eq_sc(tr, 1))]
+    def dm_rank_claims(k):
+        def f(rho):
+            out = dm_claims(rho)
+            P = A.plain(rho)
+            n = P.shape[0]
+            if k is not None and k < n and k + 1 <= 3:
+                from .C01 import det_small
+                for rows in itertools.combinations(range(n), k + 1):
+                    for cols in itertools.combinations(range(n), k + 1):
+                        if cols < rows:
+                            continue                      # Hermitian: the transposed minor is the conjugate
+                        sub = P[np.ix_(rows, cols)]
+                        out.append((f'rank <= {k}: minor rows {rows} cols {cols} vanishes', H.eq_sc(det_small(sub) if k + 1 > 1 else S.as_sc(sub[0, 0]), 0)))
+            return out
+        return f
+    for d, k, kind in ((2, None, 'haar'), (2, 1, 'haar'), (3, 2, 'haar'), (3, 1, 'haar'), (2, 1, 'bures'), (3, 1, 'bures'), (3, 2, 'bures'), (2, None, 'bures')):
+        # kind='bures' multiplies by (U + I) with U from rand_haar_unitary: every claim below holds for an arbitrary matrix U, so the unitary is an arbitrary symbolic matrix here,
+        # and the product (U + I) @ G is replaced by a matrix of fresh variables of the same shape (over-approximation: a refutation that does not replay is inconclusive)
+        uni = {'numqi.random._internal': {'rand_haar_unitary': lambda dim, *a_, **k_: H.cx_array(f'bu{dim}_', (dim, dim))}} if kind == 'bures' else None
+        valid(f'rand_density_matrix({d},k={k},kind={kind})', lambda s, d=d, k=k, kind=kind: R.rand_density_matrix(d, k=k, kind=kind, seed=s), dm_rank_claims(k),
+              ('c10v', {'what': 'dm', 'd': d, 'k': k, 'kind': kind}), lambda v: [ir.band_all(cnd for k_, cnd in S.ctx().side)], eg_extra=uni, havoc_first_matmul=(kind == 'bures'))
     for d, c in ((2, True), (3, False)):
         valid(f'rand_hermitian_matrix({d},complex={c})', lambda s, d=d, c=c: R.rand_hermitian_matrix(d, tag_complex=c, seed=s),
               lambda Hm: [('Hermitian', ir.band_all(H.eq_sc(A.plain(Hm)[i, j], S.as_sc(A.plain(Hm)[j, i]).conjugate()) for i in range(d) for j in range(d)))],
